@@ -440,7 +440,8 @@ void check_reset_state() {
   }
 }
 
-void do_cycle(int cy) {
+// returns false if the graph instance must not be reused (see "late inject")
+bool do_cycle(int cy) {
   St& s = *S;
   const Cyc& C = s.cyc[cy];
   s.cycle = cy;
@@ -501,11 +502,25 @@ void do_cycle(int cy) {
   if (s.inflight != 0) fail("wait-early", "in-flight", "cycle %d: wait() returned while %d vertex processors of this run have not finished", cy, s.inflight);
   if (injector.joinable()) injector.join();
   // A run that failed because a concurrently injected input came too late can
-  // still be poked by that late publish (a waiting vertex is invoked on the
-  // already flushed closure; its processor is skipped). The API offers nothing
-  // to wait for that, so the harness lets everything settle before it destroys
-  // the closure — a client would have to do the same.
-  if (rc != 0 && any_conc) { wait_quiescent(); probe("settle_after_late_inject"); }
+  // still be poked by that late publish: a vertex that was left waiting is
+  // invoked on the already flushed closure (its processor is skipped, but
+  // invoke()/run() read graph state and count on the closure) — possibly on a
+  // pool worker, after the injector has returned. The API offers nothing to
+  // wait for that, so reset()/destruction by the client necessarily races with
+  // it. Injecting into a run that has already failed is outside what the
+  // property quantifies over, so the harness lets everything settle, stops
+  // checking payload races and does not reuse this graph instance.
+  if (rc != 0 && any_conc) {
+    wait_quiescent();
+    probe("settle_after_late_inject");
+    if (s.inflight != 0) fail("wait-early", "in-flight-late", "cycle %d: %d vertex processors still running after wait() and the injector finished", cy, s.inflight);
+    for (size_t vi = 0; vi < s.verts.size(); vi++)
+      if (s.ninvoked[vi] > 1) fail("ran-twice", "end", "cycle %d: vertex %d invoked %d times", cy, s.verts[vi].key, s.ninvoked[vi]);
+    for (int k = 0; k < s.nd; k++) if (s.gd[k]) { hb_unregister(&s.gd[k]->_data); hb_unregister(&s.gd[k]->_empty); s.gd[k] = nullptr; }
+    s.tracing = false;
+    cl = af::Closure();
+    return false;
+  }
   if (s.inflight != 0) fail("wait-early", "in-flight-late", "cycle %d: %d vertex processors still running after wait() and the injector finished", cy, s.inflight);
   for (size_t vi = 0; vi < s.verts.size(); vi++) {
     if (s.ninvoked[vi] > 1) fail("ran-twice", "end", "cycle %d: vertex %d invoked %d times", cy, s.verts[vi].key, s.ninvoked[vi]);
@@ -549,8 +564,10 @@ void do_cycle(int cy) {
   s.tracing = false;
   set_crash_site("reset");
   s.graph->reset();
+  sim::drain();  // the relaxed stores of reset() are main's own; keeps them out of the next cycle's traces
   check_reset_state();
   set_crash_site(nullptr);
+  return true;
 }
 
 void run(const Plan& p) {
@@ -604,7 +621,7 @@ void run(const Plan& p) {
   if (pool && pool->initialize((size_t)workers, 64) != 0) fail("api", "pool-initialize", "ThreadPoolGraphExecutor::initialize failed");
   bool any = false;
   for (int c = 0; c < MAXCYC; c++)
-    if (s.cyc[c].present) { any = true; do_cycle(c); }
+    if (s.cyc[c].present) { any = true; if (!do_cycle(c)) break; }
   if (!any) { if (pool) pool->stop(); skip("no-cycle"); }
   if (pool) pool->stop();
   while (others_alive() > 0) ::usleep(1000);
@@ -617,18 +634,19 @@ void run(const Plan& p) {
 
 void gen(Rng& r, Plan& p, const GenParams& gp) {
   gen_common(r, p, SB_HALF, false, 3000);
-  int nd = (int)r.range(3, gp.thorough ? 12 : 10);
+  const int maxd = gp.thorough ? 12 : 10;
   int nv = (int)r.range(1, 6);
   int e[6];
   int E = 0;
   for (int v = 0; v < nv; v++) { e[v] = r.chance(1, 3) ? 2 : 1; E += e[v]; }
-  int min_inputs = r.chance(1, 10) ? 0 : 1;
-  while (E > nd - min_inputs) {
+  int ni = r.chance(1, 10) ? 0 : (int)r.range(1, 3);
+  while (E + ni > maxd) {
     bool cut = false;
     for (int v = nv - 1; v >= 0 && !cut; v--) if (e[v] == 2) { e[v] = 1; E--; cut = true; }
-    if (!cut) { nv--; E--; }
+    if (!cut) { if (ni > 1) ni--; else { nv--; E--; } }
   }
-  int ni = nd - E;
+  if (E + ni < 3) ni = 3 - E;
+  int nd = E + ni;
   int64_t boolmask = 0;
   for (int k = 0; k < nd; k++) if (r.chance(2, 5)) boolmask |= 1LL << k;
   p.cfg["nd"] = nd;
@@ -672,12 +690,12 @@ void gen(Rng& r, Plan& p, const GenParams& gp) {
   for (int c = 0; c < ncyc; c++) {
     int t = c + 1;
     add(t, K_CYCLE, (int64_t)r.range(0, 30), 0, 0);
-    bool conc_cycle = r.chance(9, 20);
+    bool conc_cycle = r.chance(7, 20);
     for (int k = 0; k < nd; k++) {
       bool input = k < ni;
       if (input ? !r.chance(47, 50) : !r.chance(3, 50)) continue;
       int64_t fl = r.chance(1, 9) ? 1 : 0;
-      if (input && conc_cycle && r.chance(1, 2)) fl |= 2 | ((int64_t)r.range(0, 25) << 8);
+      if (input && conc_cycle && r.chance(1, 2)) fl |= 2 | ((int64_t)r.range(0, 6) << 8);
       add(t, K_INJECT, (int64_t)r.range(1, 1 << 20), k, fl);
     }
     int nt = 0;
